@@ -846,12 +846,25 @@ enum Mode {
     Sparse,
 }
 
+/// parameters of the "few shapes" variant of the Short / Sparse corpora
+struct FewShapes {
+    vocab: Vec<u16>,
+    vocab_w: Vec<u32>,
+    /// (field length, tf of the document's main word)
+    shapes: Vec<(usize, usize)>,
+    shape_w: Vec<u32>,
+    /// percentage of documents made of filler words only
+    p_noterm: u64,
+    noterm_lens: Vec<usize>,
+}
+
 struct Corpus {
     docs: Vec<MDoc>,
     cuts: Vec<usize>,
     deletes: Vec<u64>,
     mode: Mode,
     del_mode: &'static str,
+    value_profile: &'static str,
     body_opt: IndexRecordOption,
     /// (segment chunk index, field) forced to have no value at all
     allmiss: Option<(usize, FF)>,
@@ -989,6 +1002,17 @@ fn gen_corpus(rng: &mut Rng, quick: bool) -> Corpus {
         })
         .collect();
     let few_values = rng.chance(1, 2);
+    // third value profile: keys that follow the insertion order in runs of `g` equal values
+    // (timestamps, counters): tie groups of moderate size, each inside one segment, and whole
+    // segments whose keys are all better (or all worse) than those of the other segments
+    let runs: Option<(u64, bool)> = if rng.chance(1, 4) {
+        Some((*rng.pick(&[2u64, 3, 5, 8, 16]), rng.bool()))
+    } else {
+        None
+    };
+    let run_val = |i: usize| -> Option<u64> {
+        runs.map(|(g, desc)| if desc { (n - 1 - i) as u64 / g } else { i as u64 / g })
+    };
     let miss = |rng: &mut Rng| *rng.pick(&[0u64, 0, 10, 50, 90]);
     let (mu, mi, mf, md, ms, mb) = (miss(rng), miss(rng), miss(rng), miss(rng), miss(rng), miss(rng));
     let allmiss = if nchunks >= 2 && rng.chance(1, 6) {
@@ -1016,6 +1040,37 @@ fn gen_corpus(rng: &mut Rng, quick: bool) -> Corpus {
     let p_single: u64 = *rng.pick(&[30u64, 50, 70, 85]);
     let p_long: u64 = *rng.pick(&[3u64, 8, 15, 30]);
     let long_max = *rng.pick(&[8usize, 12, 24, 40]);
+    // Short / Sparse, every second corpus: documents of a few (length, tf) shapes only
+    let few_shapes: Option<FewShapes> = if matches!(mode, Mode::Short | Mode::Sparse) && rng.bool() {
+        let nv = rng.urange(2, 4);
+        let l1 = *rng.pick(&[1usize, 1, 1, 2, 2, 3, 4]);
+        let t1 = if rng.bool() { l1 } else { rng.urange(1, l1) };
+        let mut shapes = vec![(l1, t1)];
+        let mut shape_w: Vec<u32> = vec![1000];
+        if rng.chance(1, 3) {
+            // a second frequent shape
+            let l = rng.urange(1, 5);
+            shapes.push((l, rng.urange(1, l)));
+            shape_w.push(*rng.pick(&[100u32, 300, 600]));
+        }
+        for _ in 0..rng.urange(1, 3) {
+            // rare, longer documents with a high tf, between "pure" (length = tf) and length = 3 tf
+            let t = *rng.pick(&[2usize, 3, 4, 5, 7, 10, 14, 20]);
+            shapes.push((t + rng.urange(0, 2 * t), t));
+            shape_w.push(*rng.pick(&[3u32, 10, 30]));
+        }
+        let noterm_lens: Vec<usize> = (0..rng.urange(1, 2)).map(|_| rng.urange(1, 6)).collect();
+        Some(FewShapes {
+            vocab: SHORT_VOCAB[..nv].to_vec(),
+            vocab_w: SHORT_WEIGHTS[..nv].to_vec(),
+            shapes,
+            shape_w,
+            p_noterm: *rng.pick(&[0u64, 20, 45, 70]),
+            noterm_lens,
+        })
+    } else {
+        None
+    };
     let mut docs = Vec::with_capacity(n);
     for i in 0..n {
         let mut d = MDoc::empty(i as u64 + 1);
@@ -1085,7 +1140,31 @@ fn gen_corpus(rng: &mut Rng, quick: bool) -> Corpus {
                 rng.shuffle(&mut body);
             }
             Mode::Short | Mode::Sparse => {
-                if !rng.chance(p_empty, 100) {
+                if rng.chance(p_empty, 100) {
+                    // no body
+                } else if let Some(fs) = &few_shapes {
+                    // few (length, tf) shapes: one massive base shape, a few rare long ones
+                    if rng.chance(fs.p_noterm, 100) {
+                        let len = *rng.pick(&fs.noterm_lens);
+                        for _ in 0..len {
+                            body.push(100 + (rng.below(20) as u16));
+                        }
+                    } else {
+                        let main = fs.vocab[rng.weighted(&fs.vocab_w)];
+                        let (len, tf) = fs.shapes[rng.weighted(&fs.shape_w)];
+                        for _ in 0..tf {
+                            body.push(main);
+                        }
+                        while body.len() < len {
+                            if rng.chance(1, 3) {
+                                body.push(fs.vocab[rng.weighted(&fs.vocab_w)]);
+                            } else {
+                                body.push(100 + (rng.below(20) as u16));
+                            }
+                        }
+                        rng.shuffle(&mut body);
+                    }
+                } else {
                     let len = if rng.chance(p_single, 100) {
                         1
                     } else if rng.chance(p_long, 100) {
@@ -1155,7 +1234,9 @@ fn gen_corpus(rng: &mut Rng, quick: bool) -> Corpus {
             !rng.chance(m, 100)
         };
         if present(rng, mu, FF::U) {
-            d.fu = Some(if few_values {
+            d.fu = Some(if let Some(v) = run_val(i) {
+                v
+            } else if few_values {
                 *rng.pick(&[0u64, 1, 2, 7])
             } else {
                 match rng.below(8) {
@@ -1168,7 +1249,9 @@ fn gen_corpus(rng: &mut Rng, quick: bool) -> Corpus {
             });
         }
         if present(rng, mi, FF::I) {
-            d.fi = Some(if few_values {
+            d.fi = Some(if let Some(v) = run_val(i) {
+                v as i64 - 50
+            } else if few_values {
                 *rng.pick(&[-1i64, 0, 1, 5])
             } else {
                 match rng.below(8) {
@@ -1181,7 +1264,9 @@ fn gen_corpus(rng: &mut Rng, quick: bool) -> Corpus {
             });
         }
         if present(rng, mf, FF::F) {
-            d.ff = Some(if few_values {
+            d.ff = Some(if let Some(v) = run_val(i) {
+                v as f64 * 0.25 - 3.0
+            } else if few_values {
                 *rng.pick(&[-2.5f64, 0.0, 0.5, 1e10])
             } else {
                 match rng.below(10) {
@@ -1196,14 +1281,18 @@ fn gen_corpus(rng: &mut Rng, quick: bool) -> Corpus {
             });
         }
         if present(rng, md, FF::D) {
-            d.fd = Some(if few_values {
+            d.fd = Some(if let Some(v) = run_val(i) {
+                1_600_000_000 + v as i64 * 3600
+            } else if few_values {
                 *rng.pick(&[0i64, 86_400, 1_700_000_000])
             } else {
                 rng.irange(-2_000_000_000, 4_000_000_000)
             });
         }
         if present(rng, ms, FF::S) {
-            d.fs = Some(if few_values {
+            d.fs = Some(if let Some(v) = run_val(i) {
+                format!("k{v:06}")
+            } else if few_values {
                 (*rng.pick(&["a", "b", "zz"])).to_string()
             } else if rng.chance(1, 3) {
                 format!("{}{}", rng.pick(&STRS), rng.below(1000))
@@ -1239,6 +1328,13 @@ fn gen_corpus(rng: &mut Rng, quick: bool) -> Corpus {
         deletes,
         mode,
         del_mode,
+        value_profile: if runs.is_some() {
+            "runs-in-insertion-order"
+        } else if few_values {
+            "few-values"
+        } else {
+            "wide-range"
+        },
         body_opt,
         allmiss,
     }
@@ -1558,6 +1654,7 @@ fn check_exact(
             let _ = merge_truncates;
             format!("{}:{}", c.kind.family(), p)
         };
+        if std::env::var("C06_TMP_LOG").is_ok() { eprintln!("TMPV {} {} {} nseg={} K={k} O={o} {}", c.corpus_desc["case"], c.corpus_desc["mode"], sig, c.corpus_desc["segments"], c.qdesc); } // TMPDEBUG
         rep.violation(
             sig,
             json!({
@@ -1644,6 +1741,7 @@ fn check_approx(
         } else {
             format!("{}:{}[float-sum]", c.kind.family(), p)
         };
+        if std::env::var("C06_TMP_LOG").is_ok() { eprintln!("TMPV {} {} {} nseg={} K={k} O={o} {}", c.corpus_desc["case"], c.corpus_desc["mode"], sig, c.corpus_desc["segments"], c.qdesc); } // TMPDEBUG
         rep.violation(
             sig,
             json!({
@@ -1782,7 +1880,7 @@ fn case(case: u64, rng: &mut Rng, rep: &mut Report, quick: bool) {
         .collect();
     let corpus_desc = json!({
         "case": case, "docs": corpus.docs.len(), "cuts": corpus.cuts, "mode": format!("{:?}", corpus.mode),
-        "deletes": corpus.del_mode, "n_deleted_ids": corpus.deletes.len(), "segments": nseg, "executor": exec,
+        "deletes": corpus.del_mode, "fast_field_values": corpus.value_profile, "n_deleted_ids": corpus.deletes.len(), "segments": nseg, "executor": exec,
         "body_index_option": format!("{:?}", corpus.body_opt), "avg_body_len_per_segment": avg_lens,
         "segment_without_any_value": corpus.allmiss.map(|(c, f)| json!([c, f.field()])),
         "max_docs": searcher.segment_readers().iter().map(|s| s.max_doc()).collect::<Vec<_>>(),
@@ -1809,6 +1907,7 @@ fn case(case: u64, rng: &mut Rng, rep: &mut Report, quick: bool) {
     rep.observe("segments", nseg.to_string());
     rep.observe("executor", exec.clone());
     rep.observe("deletes", corpus.del_mode);
+    rep.observe("fast_field_values", corpus.value_profile);
     rep.observe("body_index_option", format!("{:?}", corpus.body_opt));
     rep.count("corpora", 1);
     rep.count("docs_indexed", corpus.docs.len() as u64);
@@ -2046,7 +2145,19 @@ fn case(case: u64, rng: &mut Rng, rep: &mut Report, quick: bool) {
                 if cands.is_empty() {
                     continue;
                 }
-                let t = *rng.pick(&cands) + 1;
+                // preferably a segment that holds more matches than O+K: its own top list is
+                // cut (and handed over in no particular order) before the merge
+                let deep: Vec<usize> = cands
+                    .iter()
+                    .copied()
+                    .filter(|&i| per_seg[&expected_all[i].1.addr.segment_ord] > i + 1)
+                    .collect();
+                let t = if !deep.is_empty() && rng.chance(3, 4) {
+                    rep.count("searches_with_cut_inside_a_tie_group_of_a_late_segment_holding_more_matches_than_the_cut", 1);
+                    *rng.pick(&deep) + 1
+                } else {
+                    *rng.pick(&cands) + 1
+                };
                 let o = o.min(t - 1);
                 rep.count("searches_with_cut_inside_a_tie_group_of_a_late_segment", 1);
                 (t - o, o)
